@@ -74,6 +74,19 @@ def get_suffix(shape):
     return "x".join(sshape)
 
 
+def _object_array(value, shape):
+    """Nested sequences `value` as an array of objects of the given shape.
+    Unlike np.asarray(value, dtype=object) it keeps items whole that are
+    sequences themselves (xobject arrays, strings, tuples of arguments)."""
+    out = np.empty(shape, dtype=object)
+    for idx in np.ndindex(*shape):
+        item = value
+        for ii in idx:
+            item = item[ii]
+        out[idx] = item
+    return out
+
+
 def get_shape_from_array(value, nd):
     if hasattr(value, "shape"):
         return value.shape
@@ -521,7 +534,7 @@ class Array(metaclass=MetaArray):
                         )
         else:  # there is a value for initialization
             if not hasattr(value, "shape"):  # not nplike
-                value = np.asarray(value, dtype=object)
+                value = _object_array(value, info.shape)
             if cls._is_static_type:
                 ioffset = offset + cls._data_offset
                 for idx in iter_index(info.shape, cls._order):
